@@ -11,6 +11,12 @@ class ConstantExpressionEvaluator:
         """Evaluate an expression right now! (=at compile time)"""
         if isinstance(expr, expressions.BinaryOperator):
             value = self.eval_binop(expr)
+        elif isinstance(expr, expressions.TernaryOperator):
+            # Only the selected operand is evaluated:
+            if self.eval_expr(expr.a):
+                value = self.eval_expr(expr.b)
+            else:
+                value = self.eval_expr(expr.c)
         elif isinstance(expr, expressions.UnaryOperator):
             value = self.eval_unop(expr)
         elif isinstance(expr, expressions.VariableAccess):
@@ -89,6 +95,8 @@ class ConstantExpressionEvaluator:
                 "~": lambda x: ~x,
             }
             value = op_map[expr.op](a)
+        elif expr.op == "!":
+            value = int(not self.eval_expr(expr.a))
         elif expr.op == "&":
             value = self.eval_take_address(expr.a)
         else:  # pragma: no cover
@@ -100,6 +108,13 @@ class ConstantExpressionEvaluator:
 
     def eval_binop(self, expr):
         """Evaluate binary operator."""
+        if expr.op in ["&&", "||"]:
+            # Short circuit: the right operand may not be evaluated.
+            lhs = bool(self.eval_expr(expr.a))
+            if lhs == (expr.op == "||"):
+                return int(lhs)
+            return int(bool(self.eval_expr(expr.b)))
+
         lhs = self.eval_expr(expr.a)
         rhs = self.eval_expr(expr.b)
         op = expr.op
@@ -108,6 +123,14 @@ class ConstantExpressionEvaluator:
             "+": lambda x, y: x + y,
             "-": lambda x, y: x - y,
             "*": lambda x, y: x * y,
+            "<": lambda x, y: int(x < y),
+            ">": lambda x, y: int(x > y),
+            "<=": lambda x, y: int(x <= y),
+            ">=": lambda x, y: int(x >= y),
+            "==": lambda x, y: int(x == y),
+            "!=": lambda x, y: int(x != y),
+            # C remainder has the sign of the dividend:
+            "%": lambda x, y: abs(x) % abs(y) * (-1 if x < 0 else 1),
         }
 
         # Ensure division is integer division:
